@@ -438,6 +438,9 @@ func init() {
 		}
 		m.hbRelease(p)
 		m.pools[p] = append(m.pools[p], args[1])
+		// a second scheduling point AFTER the object is in the pool: another goroutine may take it
+		// before this one executes its next statement (use-after-Put)
+		m.yield()
 		return nil
 	})
 
